@@ -53,9 +53,10 @@ def cmd_setup(args):
                 continue
             raise
     from sim import workspace
-    ws = workspace.Workspace(args.repo)
-    ws.load_tree(workspace.skeleton_tree())
-    ws.cleanup()
+    with workspace.scratch_session():
+        ws = workspace.Workspace(args.repo)
+        ws.load_tree(workspace.skeleton_tree())
+        ws.cleanup()
     print("setup ok")
     return 0
 
